@@ -285,6 +285,9 @@ def store(
 
     arrays = []
     for s, t, r in zip(sources, targets, regions_list):
+        # The per-block target slices are literals for the layout advertised
+        # now; pin it so a rewrite of the source cannot drift away from them.
+        s = s.freeze_chunks()
         slices = ArraySliceDep(s.chunks)
         arrays.append(
             map_blocks(
@@ -310,6 +313,12 @@ def store(
         else:
             stored_persisted = persist(*arrays, **kwargs)
             arrays = []
+            if load_stored:
+                # every block already is ``target[region][index]``, read back
+                # by ``load_store_chunk``; loading "from" it again would index
+                # the loaded block as if it were the target
+                arrays = list(stored_persisted)
+                stored_persisted = ()
             for s, r in zip(stored_persisted, regions_list):
                 slices = ArraySliceDep(s.chunks)
                 arrays.append(
